@@ -34,6 +34,11 @@ Sensitivity (quick tier, seed 1, scratch copy of /repo/tornado):
   M7 `amp > max_len - 5` -> `amp > max_len` (planned mutant)            NOT reported: it only produces more cases of
      the open finding's class (excluded 107 -> 112); it becomes visible once that finding is repaired.
   M8 title built from the unescaped href                                caught  C22.entity_split (title), C22.tag_shape
+  M9 restore branch `if len(url) >= len(before_clip): url = before_clip` -> `url = href` (found by independent
+     mutation testing; originally missed because no generated www. link of 31..48 chars had a clipped form that
+     saved <= 3 chars)                                                   caught  C22.label_not_prefix at seeds 1..3
+     within 150-440 cases (label `http://www.hhh....com/ab?x`), and by replays/C22/shorten-no-gain-www-label.json;
+     labels no_gain_full_label / www_no_gain_full_label count the cases that reach that branch.
 The repaired heuristic proposed in findings_inbox/C22-shorten-splits-entity.md makes the check quiet with
 0 exclusions at seeds 1..5.
 """
@@ -48,7 +53,8 @@ READY = True
 RULE = (
     "Hypothesis: text = <=8 fragments (URL-like with scheme from a 14-entry pool incl. javascript/data/HTTP, "
     "1-4 slashes or www., host pool, path from a punctuation-rich alphabet; cut probes with & or \" at offset "
-    "0..45; wrappers/trailing punctuation; words; raw entities; arbitrary Unicode) x options (shorten, "
+    "0..45; 'no-gain' probes of 28..48 chars whose clipped form saves <=3 chars, mostly www. links; wrappers/trailing "
+    "punctuation; words; raw entities; arbitrary Unicode) x options (shorten, "
     "require_protocol, 7 permitted-protocol sets as list/set, 6 extra_params forms, str/bytes).  non-trivial = "
     "output has >=1 anchor and its URL text contains '&' or (shorten and the URL is longer than 30 chars); "
     "distinct = SHA-1 of the case"
@@ -94,7 +100,16 @@ url_cut_seg = st.builds(
     lambda pre, k, c, tail: pre + "s" * k + c + tail,
     st.sampled_from(["http://a.b/", "www.a.b/", "https://example.com/", "http://h/"]),
     st.integers(0, 9), cut_char, st.text(alphabet=filler_alpha, min_size=10, max_size=45))
-url_any = st.one_of(url_plain, url_plain, url_www, url_cut_long, url_cut_long, url_cut_seg, url_cut_seg)
+# "shortening gains nothing" probes: a URL of 28..48 characters whose clipped form (host + '/' + first path
+# segment cut at 8 chars / '?' / '.') is at most 3 characters shorter, so make_link must restore the full label.
+# Mostly protocol-less www. links, where label (escaped input text) and href ("http://" + it) differ.
+NO_GAIN_TAILS = ["a.b", "ab?x", "a/b", "a/", "a.", "a?", "ab.c", "abc.d", "abcdefgh1", "abcdefghij", "abcdefghijk", "abcdefghijkl",
+                 "1234567.8", "x?y", "a.b.c", "ab/c", "abcdefgh/", "a&b", "ab\"c", "a.b)", "a.b.", "abcdefg&h"]
+url_no_gain = st.builds(
+    lambda pre, total, tld, tail: pre + "h" * max(1, total - len(pre) - len(tld) - 1) + tld + "/" + tail,
+    st.sampled_from(["www.", "www.", "www.", "www.a-b.", "http://", "https://www.", "ftp://", "HTTP://"]),
+    st.integers(24, 44), st.sampled_from([".com", ".example.org", ".b"]), st.sampled_from(NO_GAIN_TAILS))
+url_any = st.one_of(url_plain, url_plain, url_www, url_cut_long, url_cut_long, url_cut_seg, url_cut_seg, url_no_gain, url_no_gain, url_no_gain)
 
 TRAIL = ["", "", "", ".", ",", "!", "?", ")", ";", ":", "...", "'", "\"", ">", "&", "&amp;", "/", "("]
 WRAP = [("", ""), ("", ""), ("(", ")"), ("<", ">"), ("\"", "\""), ("'", "'"), ("[", "]"), ("see ", ""), ("x", ""), ("&", ";")]
@@ -150,6 +165,23 @@ def broken_amps(s):
             out.append(i)
         i = s.find("&", i + 1)
     return out
+
+
+SCHEME_PREFIX_RE = re.compile(r"^[\w-]+:/{1,3}")
+
+
+def clip_candidate(U):
+    """For labelling only (never used by the oracle): the prefix the documented shortening heuristic would
+    keep (host + '/' + first path segment cut at 8 chars, '?' or '.'; 30 chars if still longer than 45)."""
+    m = SCHEME_PREFIX_RE.match(U)
+    pre = m.group(0) if m else ""
+    parts = U[len(pre):].split("/")
+    P = U
+    if len(parts) > 1:
+        P = pre + parts[0] + "/" + parts[1][:8].split("?")[0].split(".")[0]
+    if len(P) > 45:
+        P = P[:30]
+    return P
 
 
 def tokenize(ctx, out, detail):
@@ -250,6 +282,11 @@ def run_case(ctx, case):
                 T = m.group(1)
                 labels.add("has_title")
         # ---- (a) label
+        if shorten and L == U and len(U) > 30 and clip_candidate(U) != U:
+            # clipping was possible but would not have made the label shorter: the full text must be kept
+            labels.add("no_gain_full_label")
+            if protoless:
+                labels.add("www_no_gain_full_label")
         if L != U:
             if not shorten:
                 ctx.fail("C22.label_not_url", dict(detail, href=H, label=L, url=U))
